@@ -217,6 +217,44 @@ theorem GoodV.bind {m : M Val} {f : Val → M Val} (hm : GoodV m) (hf : ∀ v, v
   | error s => exact hm
   | ok v => exact hf v hm
 
+theorem readSlot_good {σ : Store} (hσ : StoreWF σ) (k : String) : GoodV (readSlot σ k) := by
+  unfold readSlot
+  split
+  · exact hσ.1 k _ ‹_›
+  · simp [GoodV, fault, Stop.isPanic]
+
+theorem indexToI64_nopanic (v : Val) : ∀ s, indexToI64 .real v = .error s → s.isPanic = false := by
+  intro s h
+  cases v with
+  | b _ => simp [indexToI64, fault] at h; subst h; rfl
+  | i k x => cases k <;> simp [indexToI64, pure, Except.pure] at h
+
+/-- The subscript computation (`index_to_i64`, `array_offset`) has no panic site. -/
+theorem index_nopanic {σ : Store} {i : Expr} (g : GoodV (evalExpr .real σ i)) (lo hi : Int) :
+    ∀ s, (evalExpr .real σ i >>= arrayIndex .real lo hi) = .error s → s.isPanic = false := by
+  intro s h
+  cases hv : evalExpr .real σ i with
+  | error s' =>
+    rw [hv] at g h
+    simp [bind, Except.bind] at h
+    subst h
+    exact g
+  | ok v =>
+    rw [hv] at h
+    simp only [bind, Except.bind, arrayIndex] at h
+    cases hi' : indexToI64 .real v with
+    | error s' =>
+      rw [hi'] at h
+      simp at h
+      subst h
+      exact indexToI64_nopanic v _ hi'
+    | ok n =>
+      rw [hi'] at h
+      simp only at h
+      split at h
+      · simp [fault] at h; subst h; rfl
+      · simp [pure, Except.pure] at h
+
 /-- Expressions of a compilable program never panic and produce well-formed values. -/
 theorem evalExpr_good {σ : Store} (hσ : StoreWF σ) : ∀ e : Expr, e.lowerable = true → GoodV (evalExpr .real σ e) := by
   intro e
@@ -250,6 +288,26 @@ theorem evalExpr_good {σ : Store} (hσ : StoreWF σ) : ∀ e : Expr, e.lowerabl
          split
          · simp [GoodV, pure, Except.pure, Val.WF]
          · exact (ihr hl.2).bind fun b hb => applyBinary_good _ ha hb)
+  | idx a i ih =>
+    intro hl
+    simp only [Expr.lowerable] at hl
+    simp only [evalExpr]
+    split
+    · split
+      · exact readSlot_good hσ _
+      · rename_i st heq
+        exact index_nopanic (ih hl) _ _ st heq
+    · simp [GoodV, fault, Stop.isPanic]
+    · exact (readName_good hσ a).bind fun _ _ => by simp [GoodV, fault, Stop.isPanic]
+  | fld s f =>
+    intro _
+    simp only [evalExpr]
+    split
+    · split
+      · exact readSlot_good hσ _
+      · simp [GoodV, fault, Stop.isPanic]
+    · simp [GoodV, fault, Stop.isPanic]
+    · exact (readName_good hσ s).bind fun _ _ => by simp [GoodV, fault, Stop.isPanic]
 
 
 theorem lookup_insert (x y : String) (v : Val) (e : Env) :
@@ -335,6 +393,21 @@ end
 
 
 theorem writeVal_real' (σ : Store) (x : String) (v : Val) : writeVal .real σ x v = (writeName σ x v, none) := rfl
+
+theorem writeSlot_good {σ : Store} (hσ : StoreWF σ) (k : String) {v : Val} (hv : v.WF = true) :
+    StoreWF (writeSlot .real σ k v).1 ∧ ∀ st, (writeSlot .real σ k v).2 = some st → st.isPanic = false := by
+  unfold writeSlot
+  split
+  · simp only [writeVal_real']
+    exact ⟨hσ.write k hv, fun st h => by cases h⟩
+  · exact ⟨hσ, fun st h => by injection h with h; subst h; rfl⟩
+
+theorem readName_nopanic {σ : Store} (hσ : StoreWF σ) (x : String) :
+    ∀ s, readName σ x = .error s → s.isPanic = false := by
+  intro s h
+  have g := readName_good hσ x
+  rw [h] at g
+  exact g
 
 def NStmt (fuel : Nat) : Prop :=
   ∀ ld σ s, StoreWF σ → s.lowerable = true → GoodR (execStmt .real fuel ld σ s)
@@ -523,6 +596,50 @@ theorem nstmt_step {fuel : Nat} (hB : NBlock fuel) (hE : NElifs fuel) (hF : NFor
     · rename_i st heq
       rw [heq] at g
       exact GoodR.err hσ g
+  | assignIdx a i e =>
+    simp only [Stmt.lowerable, Bool.and_eq_true] at hl
+    simp only [execStmt]
+    have g := evalExpr_good hσ e hl.2
+    split
+    · rename_i st heq
+      rw [heq] at g
+      exact GoodR.err hσ g
+    · rename_i v heq
+      rw [heq] at g
+      split
+      · split
+        · rename_i st hst
+          exact GoodR.err hσ (index_nopanic (evalExpr_good hσ i hl.1) _ _ st hst)
+        · rename_i n _
+          have w := writeSlot_good hσ (elemName a n) g
+          split
+          · rename_i σ' hw; rw [hw] at w; exact GoodR.ok w.1 _
+          · rename_i σ' st hw; rw [hw] at w; exact GoodR.err w.1 (w.2 st rfl)
+      · exact GoodR.flt hσ _ _
+      · split
+        · rename_i st hst; exact GoodR.err hσ (readName_nopanic hσ a st hst)
+        · exact GoodR.flt hσ _ _
+  | assignFld s f e =>
+    simp only [Stmt.lowerable] at hl
+    simp only [execStmt]
+    have g := evalExpr_good hσ e hl
+    split
+    · rename_i st heq
+      rw [heq] at g
+      exact GoodR.err hσ g
+    · rename_i v heq
+      rw [heq] at g
+      split
+      · split
+        · have w := writeSlot_good hσ (fldName s f) g
+          split
+          · rename_i σ' hw; rw [hw] at w; exact GoodR.ok w.1 _
+          · rename_i σ' st hw; rw [hw] at w; exact GoodR.err w.1 (w.2 st rfl)
+        · exact GoodR.flt hσ _ _
+      · exact GoodR.flt hσ _ _
+      · split
+        · rename_i st hst; exact GoodR.err hσ (readName_nopanic hσ s st hst)
+        · exact GoodR.flt hσ _ _
   | ite c t elifs el =>
     simp only [Stmt.lowerable, Bool.and_eq_true] at hl
     simp only [execStmt]
@@ -602,19 +719,17 @@ theorem cycle_nopanic (p : Program) (hl : p.body.lowerable = true) (fuel : Nat) 
   split
   · exact ⟨hσ, fun s h => by injection h with h; subst h; rfl⟩
   · have h := (exec_nopanic fuel).2.1 0
-      { vars := st.store.vars, globals := st.store.globals, frames := p.name :: st.store.frames } p.body hσ hl
+      { st.store with frames := p.name :: st.store.frames } p.body hσ hl
     rcases hA : execBlock .real fuel 0
-      { vars := st.store.vars, globals := st.store.globals, frames := p.name :: st.store.frames } p.body with ⟨σ1, r1⟩
+      { st.store with frames := p.name :: st.store.frames } p.body with ⟨σ1, r1⟩
     rw [hA] at h
     simp only
     rw [hA]
     simp only
-    have hw : StoreWF { vars := σ1.vars, globals := σ1.globals, frames := σ1.frames.tail } := h.1
+    have hw : StoreWF { σ1 with frames := σ1.frames.tail } := h.1
     split
     · exact ⟨hw, fun s e => by cases e⟩
-    · split
-      · exact ⟨hw, fun s e => by cases e⟩
-      · exact ⟨hw, fun s e => by injection e with e; subst e; rfl⟩
+    · exact ⟨hw, fun s e => by cases e⟩
     · exact ⟨hw, fun s e => by injection e with e; subst e; rfl⟩
     · rename_i s' heq
       exact ⟨hw, fun s e => by injection e with e; subst e; exact h.2 _ (by simpa using heq)⟩
